@@ -988,7 +988,19 @@ int omp_get_thread_num(void) { return S.active ? S.cur : 0; }
 int omp_get_num_threads(void) { return S.active ? S.T : 1; }
 int omp_get_max_threads(void) { sim_init(); return S.max_threads; }
 void omp_set_num_threads(int n) { sim_init(); if (n >= 1) { S.max_threads = n; S.st.set_num_threads_calls++; } }
-int omp_get_num_procs(void) { sim_init(); return S.cfg_T; }
+/* The number of processors is a fact about the machine, not about the team: a pure function of the run's seed, in one run in
+   two SMALLER than the team (oversubscription: more threads than processors), otherwise equal to or larger than it. */
+int omp_get_num_procs(void) {
+    sim_init();
+    uint64_t h = S.seed ^ 0x6f6d705f70726f63ULL, r = splitmix(&h);
+    int T = S.cfg_T < 1 ? 1 : S.cfg_T;
+    switch (r & 3) {
+        case 0: return T;
+        case 1: return T > 1 ? 1 + (int)((r >> 8) % (uint64_t)(T - 1)) : 1;      /* 1 .. T-1 */
+        case 2: return T > 1 ? (T + 1) / 2 : 1;
+        default: return T + 1 + (int)((r >> 8) % 8);
+    }
+}
 int omp_in_parallel(void) { return S.active; }
 int omp_get_dynamic(void) { return 0; }
 void omp_set_dynamic(int x) { (void)x; }
